@@ -12,7 +12,7 @@ from ..common import V, samples_of, seed_offset
 
 TOL_REL = 1e-10  # of |m_i|: rounding level of a direct solve (measured worst 2e-13)
 
-TABLES_Q = ["T_ship_gas", "T_ship_oil", "S_zdip", "A_rise", "A_fall", "A_kink1e3", "A_jump"]
+TABLES_Q = ["T_ship_gas", "T_ship_oil", "S_zdip", "A_rise", "A_fall", "A_kink1e3", "A_jump", "A_zero"]
 TABLES_T = TABLES_Q + ["T_hay", "T_lib", "A_kink", "A_const", "S_zlin", "S_zdip_desc"]
 RATIOS = [0.0125, 0.5, 0.875, 0.99, 0.99875]
 GRIDS = [("onestep", 2, 0), ("huge", 6, 0), ("repeat", 9, 0), ("uniform", 25, 2.0), ("quadratic", 40, 4.0),
